@@ -527,4 +527,176 @@ Section RingProofs.
             - destruct A5 as [A5|A5]. lia. rewrite B3 in A5 by lia. discriminate. }
           subst sf. f_equal. eapply linrun_same_start; eauto.
   Qed.
+
+  Theorem cr_nodup ws : NoDup (contiguous_ranges ws).
+  Proof.
+    unfold contiguous_ranges. fold (lin ws).
+    destruct (merge_seam_cases (lin ws)) as [(E & NM)|(ei & M & sf & L2 & EL & HP & E)]; rewrite E.
+    - eapply chain_NoDup. apply lin_chain.
+    - pose proof (lin_chain ws) as C. rewrite EL in C.
+      inversion C as [|? ? ? ? X1 X2 X3]; subst.
+      apply chain_app in X3 as (C1 & lo2 & C2 & C3 & C4).
+      inversion C2 as [|? ? ? ? Y1 Y2 Y3]; subst.
+      apply NoDup_app_intro.
+      + eapply Permutation_NoDup. apply Permutation_sym, HP. eapply chain_NoDup; eauto.
+      + repeat constructor. intros [].
+      + intros [a b] Hin [X|[]]. inversion X; subst.
+        apply (Permutation_in _ HP) in Hin.
+        pose proof (chain_in _ _ _ _ C1 Hin). pose proof (C4 _ _ Hin). lia.
+  Qed.
+
+  (* the index sets of the blocks are pairwise disjoint *)
+  Theorem cr_indices_nodup ws : NoDup (flat_map range_to_indices (contiguous_ranges ws)).
+  Proof.
+    unfold contiguous_ranges. fold (lin ws).
+    destruct (merge_seam_cases (lin ws)) as [(E & NM)|(ei & M & sf & L2 & EL & HP & E)]; rewrite E.
+    - eapply chain_indices_NoDup. apply lin_chain. apply lin_le.
+    - pose proof (chain_indices_NoDup _ _ (lin_chain ws) (lin_le ws)) as ND.
+      pose proof (lin_chain ws) as C. rewrite EL in C.
+      inversion C as [|? ? ? ? X1 X2 X3]; subst.
+      apply chain_app in X3 as (C1 & lo2 & C2 & C3 & C4).
+      inversion C2 as [|? ? ? ? Y1 Y2 Y3]; subst.
+      eapply Permutation_NoDup; [|exact ND]. rewrite EL.
+      cbn [flat_map]. rewrite !flat_map_app. cbn [flat_map]. rewrite !app_nil_r.
+      unfold range_to_indices at 1 3 5.
+      replace (0 <? ei) with true by lia. replace (sf <? NW) with true by lia.
+      replace (sf <? ei) with false by lia.
+      replace (ei - 0) with ei by lia.
+      etransitivity. apply Permutation_app_comm. rewrite <- app_assoc.
+      apply Permutation_app_tail. apply Permutation_flat_map. apply Permutation_sym, HP.
+  Qed.
+
+  Lemma cr_valid ws f l : ~ full_ring ws -> In (f, l) (contiguous_ranges ws) -> f < NW /\ 1 <= l <= NW.
+  Proof. intros NF H. apply cr_in in H; auto. destruct H as (? & ? & _). auto. Qed.
 End RingProofs.
+
+(* ---------------------------------------------------------------- rotation of a list *)
+Lemma rot_length {A} n s (l : list A) : length (rot n s l) = length l.
+Proof.
+  unfold rot. rewrite app_length, Nat.add_comm, <- app_length, firstn_skipn. reflexivity.
+Qed.
+
+Lemma rot_nth_error {A} n s (l : list A) i :
+  N.of_nat (length l) = n -> s <= n -> i < n ->
+  nth_error (rot n s l) (N.to_nat i) = nth_error l (N.to_nat ((i + n - s) mod n)).
+Proof.
+  intros Hl Hs Hi. unfold rot.
+  assert (Hk : length (skipn (N.to_nat (n - s)) l) = N.to_nat s) by (rewrite skipn_length; lia).
+  destruct (N.lt_ge_cases i s) as [L|L].
+  - rewrite nth_error_app1 by lia. rewrite nth_error_skipn. f_equal.
+    rewrite N.mod_small by lia. lia.
+  - rewrite nth_error_app2 by lia. rewrite Hk. rewrite nth_error_firstn by lia. f_equal.
+    replace ((i + n - s) mod n) with (i - s). lia.
+    replace (i + n - s) with (i - s + 1 * n) by lia. rewrite N.mod_add by lia.
+    rewrite N.mod_small; lia.
+Qed.
+
+Lemma rot_map {A B} (f : A -> B) n s l : rot n s (map f l) = map f (rot n s l).
+Proof. unfold rot. now rewrite map_app, firstn_map, skipn_map. Qed.
+
+(* ---------------------------------------------------------------- arithmetic mod 256 *)
+Lemma m256_unrot i s : i < 256 -> s <= 256 -> ((i + s) mod 256 + 256 - s) mod 256 = i.
+Proof. intros; lia. Qed.
+Lemma m256_add f j s : ((f + s) mod 256 + j) mod 256 = ((f + j) mod 256 + s) mod 256.
+Proof. intros; lia. Qed.
+Lemma m256_pred f s : ((f + s) mod 256 + 256 - 1) mod 256 = ((f + 256 - 1) mod 256 + s) mod 256.
+Proof. intros; lia. Qed.
+Lemma m256_end l s : 1 <= l -> ((l + 256 - 1 + s) mod 256 + 1) mod 256 = (l mod 256 + s) mod 256.
+Proof. intros; lia. Qed.
+Lemma m256_rlen f l : f < 256 -> 1 <= l <= 256 ->
+  (if f <? l then l - f else 256 - f + l) = (l + 256 - 1 - f) mod 256 + 1.
+Proof. intros; case_if; lia. Qed.
+Lemma m256_rlen_rot f l s : f < 256 -> 1 <= l <= 256 ->
+  (((l + 256 - 1 + s) mod 256 + 1) + 256 - 1 - (f + s) mod 256) mod 256 = (l + 256 - 1 - f) mod 256.
+Proof. intros; lia. Qed.
+
+Section RingRot.
+  Context {sig : Type}.
+  Implicit Types ws : list (option sig).
+
+  Lemma wf_rotw ws s : wf ws -> wf (rotw s ws).
+  Proof. unfold wf, rotw. now rewrite rot_length. Qed.
+
+  Lemma get_rotw ws s i : wf ws -> s <= NW -> i < NW ->
+    get (rotw s ws) i = get ws ((i + NW - s) mod NW).
+  Proof. intros W Hs Hi. unfold get, rotw. now rewrite rot_nth_error. Qed.
+
+  Lemma get_rotw_fwd ws s i : wf ws -> s <= NW -> i < NW ->
+    get (rotw s ws) ((i + s) mod NW) = get ws i.
+  Proof.
+    intros W Hs Hi. rewrite get_rotw; auto. f_equal. unfold NW in *. now apply m256_unrot.
+    unfold NW in *. lia.
+  Qed.
+
+  Lemma pres_rotw ws s i : wf ws -> s <= NW -> i < NW ->
+    pres (rotw s ws) ((i + s) mod NW) = pres ws i.
+  Proof. intros. unfold pres. now rewrite get_rotw_fwd. Qed.
+
+  Lemma full_ring_rot ws s : wf ws -> s <= NW -> full_ring (rotw s ws) -> full_ring ws.
+  Proof.
+    intros W Hs F i Hi. rewrite <- (get_rotw_fwd ws s i) by auto. apply F. unfold NW; lia.
+  Qed.
+
+  Lemma rlen_rot f l s : f < NW -> 1 <= l <= NW ->
+    rlen (fst (rot_range s (f, l))) (snd (rot_range s (f, l))) = rlen f l.
+  Proof.
+    intros Hf Hl. unfold rot_range, rlen, NW in *. cbn [fst snd].
+    rewrite m256_rlen by lia. rewrite (m256_rlen f l) by lia.
+    now rewrite m256_rlen_rot.
+  Qed.
+
+  Lemma block_rot ws s f l : wf ws -> s <= NW -> f < NW -> 1 <= l <= NW ->
+    (block (rotw s ws) (fst (rot_range s (f, l))) (snd (rot_range s (f, l))) <-> block ws f l).
+  Proof.
+    intros W Hs Hf Hl. unfold block. rewrite rlen_rot by auto.
+    unfold rot_range. cbn [fst snd].
+    assert (G1 : forall j, pres (rotw s ws) (((f + s) mod NW + j) mod NW) = pres ws ((f + j) mod NW)).
+    { intros j. unfold NW at 2 3. rewrite m256_add. apply pres_rotw; auto. unfold NW; lia. }
+    assert (G2 : pres (rotw s ws) (((f + s) mod NW + NW - 1) mod NW) = pres ws ((f + NW - 1) mod NW)).
+    { unfold NW at 2 3 4. rewrite m256_pred. apply pres_rotw; auto. unfold NW; lia. }
+    assert (G3 : pres (rotw s ws) (((l + NW - 1 + s) mod NW + 1) mod NW) = pres ws (l mod NW)).
+    { unfold NW at 2 3 4. rewrite m256_end by lia. apply pres_rotw; auto. unfold NW; lia. }
+    rewrite G2, G3. setoid_rewrite G1.
+    assert ((f + s) mod NW < NW) by (unfold NW; lia).
+    assert (1 <= (l + NW - 1 + s) mod NW + 1 <= NW) by (unfold NW; lia).
+    tauto.
+  Qed.
+
+  Lemma rot_range_inv s f l : s <= NW -> f < NW -> 1 <= l <= NW ->
+    rot_range s (rot_range (NW - s) (f, l)) = (f, l).
+  Proof. intros. unfold rot_range, NW in *. cbn [fst snd]. f_equal; lia. Qed.
+
+  Lemma rot_range_valid s r : fst (rot_range s r) < NW /\ 1 <= snd (rot_range s r) <= NW.
+  Proof. unfold rot_range, NW. cbn [fst snd]. lia. Qed.
+
+  Lemma rot_range_inj s f1 l1 f2 l2 :
+    f1 < NW -> 1 <= l1 <= NW -> f2 < NW -> 1 <= l2 <= NW ->
+    rot_range s (f1, l1) = rot_range s (f2, l2) -> (f1, l1) = (f2, l2).
+  Proof.
+    unfold rot_range, NW. cbn [fst snd]. intros ? ? ? ? E. inversion E. f_equal; lia.
+  Qed.
+
+  (* rotating the ring rotates the set of blocks; their order in the vector may change *)
+  Theorem cr_rot_perm ws s : wf ws -> ~ full_ring ws -> s <= NW ->
+    Permutation (contiguous_ranges (rotw s ws)) (map (rot_range s) (contiguous_ranges ws)).
+  Proof.
+    intros W NF Hs.
+    assert (NF' : ~ full_ring (rotw s ws)) by (intro F; apply NF; eapply full_ring_rot; eauto).
+    apply NoDup_Permutation.
+    - apply cr_nodup.
+    - apply NoDup_map_in. apply cr_nodup.
+      intros [f1 l1] [f2 l2] H1 H2 E.
+      apply cr_valid in H1, H2; auto. apply (rot_range_inj s); tauto.
+    - intros [f' l']. rewrite in_map_iff. split.
+      + intros Hin. pose proof (cr_valid _ _ _ NF' Hin) as V.
+        apply cr_in in Hin; auto.
+        exists (rot_range (NW - s) (f', l')). split. apply rot_range_inv; tauto.
+        destruct (rot_range (NW - s) (f', l')) as [f l] eqn:E.
+        pose proof (rot_range_valid (NW - s) (f', l')) as V'. rewrite E in V'. cbn [fst snd] in V'.
+        apply cr_in; auto. apply (block_rot ws s); auto; try tauto.
+        rewrite <- E, rot_range_inv by tauto. exact Hin.
+      + intros ([f l] & E & Hin). pose proof (cr_valid _ _ _ NF Hin) as V.
+        apply cr_in in Hin; auto. apply cr_in; auto.
+        apply (block_rot ws s) in Hin; auto; try tauto. rewrite E in Hin. exact Hin.
+  Qed.
+End RingRot.
